@@ -77,6 +77,11 @@ pub fn start_recording() {
     MAP_LOG.with(|l| l.borrow_mut().clear());
 }
 
+/// Resumes recording on the calling thread without clearing the log collected so far.
+pub fn record_resume() {
+    MAP_RECORD.with(|r| r.set(true));
+}
+
 pub fn take_log() -> Vec<MapEvent> {
     MAP_LOG.with(|l| std::mem::take(&mut *l.borrow_mut()))
 }
